@@ -38,6 +38,7 @@ type Gen struct {
 	nextMkt  int64
 	nextBet  int64
 	usedBets []int64
+	pending  []Op // operations to be emitted next, in the same block (bursts)
 	okTix    []Op // accepted ticket-bearing ops whose very ticket (same string: same payload, exp and key) is presented again later
 	stats    map[string]int
 }
@@ -126,6 +127,17 @@ func (g *Gen) leaderTicket() Ticket {
 // ticket for another market and amount.  Whether it is accepted must depend on the keys registered NOW (C06).
 func (g *Gen) replayTicket() Op {
 	o := pick(g.r, g.okTix)
+	// prefer an unexpired ticket signed by a key that has since lost the leader position (after a rotation): it must be refused now
+	if g.chance(0.6) {
+		lead := int64(g.c.LeaderKey())
+		for _, q := range g.okTix {
+			if q.Kind != "VOTE" && q.Tk.Signer != lead && q.Tk.Exp > g.c.Time {
+				o = q
+				g.stats["ticket_replayed_after_rotation"]++
+				break
+			}
+		}
+	}
 	g.stats["ticket_replayed_"+o.Kind]++
 	switch o.Kind {
 	case "VOTE":
@@ -345,6 +357,10 @@ func (g *Gen) genMarketResolve() Op {
 		if g.chance(0.03) {
 			winners = []int64{m.uid*10 + 9} // foreign outcome
 		}
+		if g.chance(0.05) {
+			winners = []int64{pick(g.r, m.odds) + upperCaseBase} // an outcome of the market spelled in upper case: not one of its outcomes
+			g.stats["winner_upper_case"]++
+		}
 		if g.chance(0.02) {
 			winners = append(winners, pick(g.r, m.odds)) // two winners: invalid
 		}
@@ -360,6 +376,24 @@ func (g *Gen) genMarketResolve() Op {
 	}
 	if g.chance(0.02) {
 		rts = 0
+	}
+	if g.chance(0.2) {
+		// a burst: every other unresolved market is resolved in the same block, so that several markets / books finish in one end block
+		n := 0
+		for _, q := range g.markets {
+			if q.uid != m.uid && !q.resolved && g.c.Time >= q.start {
+				st := pick(g.r, []int64{5, 5, 3, 4})
+				var ws []int64
+				if st == 5 {
+					ws = []int64{pick(g.r, q.odds)}
+				}
+				g.pending = append(g.pending, Op{Kind: "MRES", Signer: g.user(), Tk: g.leaderTicket(), UID: q.uid, Rts: g.c.Time, Status: st, Winners: ws})
+				n++
+			}
+		}
+		if n >= 2 {
+			g.stats["resolve_burst_of_3_or_more"]++
+		}
 	}
 	return Op{Kind: "MRES", Signer: g.user(), Tk: g.ticket(), UID: m.uid, Rts: rts, Status: status, Winners: winners}
 }
@@ -937,11 +971,18 @@ func (g *Gen) genVote() Op {
 	return Op{Kind: "VOTE", Signer: g.user(), Tk: tk, VoterIdx: vi, PropID: pid, Vote: vote}
 }
 
+func (g *Gen) HasPending() bool { return len(g.pending) > 0 }
+
 // NextTx draws one transaction according to the profile.
 func (g *Gen) NextTx() Op {
 	type w struct {
 		f func() Op
 		w int
+	}
+	if len(g.pending) > 0 {
+		o := g.pending[0]
+		g.pending = g.pending[1:]
+		return o
 	}
 	if len(g.okTix) > 0 && g.chance(0.07) {
 		return g.replayTicket()
